@@ -18,8 +18,13 @@
    history of operations  [op |-> "run", roots |-> <<roots of run 1, roots of run 2, ...>>]
    (the runs of one step are concurrent) and [op |-> "evict", keys |-> K, conc |-> BOOLEAN].
 
-   Fix \subseteq {"F1","F2","F3","F4"} selects the repaired behaviour (patches/fix-C34-*.diff,
-   fix-C33-*.diff); Fix = {} is the code as found. *)
+   Fix \subseteq {"F1","F2","F3","F4","F5"} selects the repaired behaviour (patches/fix-C3[34]-*.diff);
+   Fix = {} is the code as found:
+     F1  an asynchronous leader whose acquire fails resets its pending result before returning
+     F2  a result completed while the run's context is cancelled is not memoised
+     F3  the panic handler cancels the run before it resets the result (not after)
+     F4  EvictWithCleanup looks the keys up under the dirty lock (not before taking it)
+     F5  Run returns only after the goroutines it started have returned *)
 EXTENDS Naturals, Sequences, FiniteSets, TLC
 
 CONSTANTS Nodes,     \* set of node names (strings)
@@ -171,18 +176,19 @@ ShortestDepPaths(from, to) == LET P == DepPaths(from, to) IN {p \in P : \A q \in
 CyclePath(p, t) == IF Len(p) = 1 THEN <<t, t, t>> ELSE Append(p, t)
 
 -----------------------------------------------------------------------------
-Init ==
-  /\ cfg \in Cases
-  /\ exp = Oracle(cfg)
+InitWith(c) ==
+  /\ cfg = c
+  /\ exp = Oracle(c)
   /\ step = 0
   /\ tasks = {} /\ res = [k \in Nodes |-> "nil"] /\ out = [k \in Nodes |-> NoId]
   /\ val = [k \in Nodes |-> 0] /\ fat = [k \in Nodes |-> NoF] /\ rrun = [k \in Nodes |-> 0]
   /\ deps = [k \in Nodes |-> {}] /\ callers = [k \in Nodes |-> {}]
-  /\ sema = cfg.par /\ readers = 0 /\ writer = FALSE /\ counter = 0
+  /\ sema = c.par /\ readers = 0 /\ writer = FALSE /\ counter = 0
   /\ ver = [k \in Nodes |-> 0]
   /\ acts = <<>> /\ runs = <<>>
   /\ ev = [pc |-> "idle", keys |-> {}, coll |-> {}, conc |-> FALSE]
   /\ execCnt = [k \in Nodes |-> 0] /\ execIn = [k \in Nodes |-> NoId] /\ flags = <<>>
+Init == \E c \in Cases : InitWith(c)
 
 RunsDone == \A rid \in DOMAIN runs : runs[rid].state = "done"
 
@@ -196,7 +202,7 @@ OpBegin ==
           /\ acts' = [i \in DOMAIN acts \cup rids |->
                         IF i \in rids THEN NewAct(ROOT, i, NoId, "", 0, 0, FALSE, "enter") ELSE acts[i]]
           /\ runs' = [r \in DOMAIN runs \cup rids |->
-                        IF r \in rids THEN [gen |-> 0, canc |-> FALSE, cause |-> "", state |-> "active"] ELSE runs[r]]
+                        IF r \in rids THEN [gen |-> 0, canc |-> FALSE, cause |-> "", state |-> "active", err |-> FALSE] ELSE runs[r]]
           /\ flags' = [r \in DOMAIN flags \cup rids |-> IF r \in rids THEN [k \in Nodes |-> {}] ELSE flags[r]]
        /\ UNCHANGED ev
      ELSE
@@ -209,22 +215,19 @@ OpBegin ==
                  counter, ver, execCnt, execIn>>
 
 (* ---- Run ---- *)
-RunEnter(i) ==            \* dirty.RLock; generation := counter.Add(1)
-  /\ acts[i].pc = "enter" /\ ~writer
-  /\ readers' = readers + 1 /\ counter' = counter + 1
-  /\ runs' = [runs EXCEPT ![acts[i].run].gen = counter + 1]
+RunEnter(i, g) ==         \* dirty.RLock; generation := counter.Add(1)
+  /\ acts[i].pc = "enter" /\ ~writer /\ g > counter
+  /\ readers' = readers + 1 /\ counter' = g
+  /\ runs' = [runs EXCEPT ![acts[i].run].gen = g]
   /\ acts' = [acts EXCEPT ![i].pc = "racq"]
   /\ UNCHANGED <<cfg, exp, step, tasks, res, out, val, fat, rrun, deps, callers, sema, writer, ver, ev,
                  execCnt, execIn, flags>>
 
-RootAcquire(i) ==         \* root.acquire(); Resolve(root, queries...) creates the root tasks
+RootAcquire(i) ==         \* root.acquire()
   /\ acts[i].pc = "racq" /\ sema > 0
   /\ sema' = sema - 1
-  /\ LET a == acts[i] b == BatchOf(a) IN
-     /\ acts' = [acts EXCEPT ![i] = [a EXCEPT !.pc = "start", !.hold = TRUE, !.nx = Len(b),
-                                               !.got = [j \in 1..Len(b) |-> NoRes]]]
-     /\ tasks' = tasks \cup SeqSet(b)
-  /\ UNCHANGED <<cfg, exp, step, res, out, val, fat, rrun, deps, callers, readers, writer, counter, ver,
+  /\ acts' = [acts EXCEPT ![i].pc = "exec", ![i].hold = TRUE]
+  /\ UNCHANGED <<cfg, exp, step, tasks, res, out, val, fat, rrun, deps, callers, readers, writer, counter, ver,
                  runs, ev, execCnt, execIn, flags>>
 
 (* ---- Resolve, on the goroutine of activation i (a leader inside Execute, or a root) ---- *)
@@ -232,37 +235,42 @@ StoreEdges(i) ==          \* getOrCreateTask + deps.Store / callers.Store for th
   /\ acts[i].pc = "exec"
   /\ LET a == acts[i] b == BatchOf(a) k == a.key IN
      /\ tasks' = tasks \cup SeqSet(b)
-     /\ deps' = [deps EXCEPT ![k] = @ \cup SeqSet(b)]
-     /\ callers' = [d \in Nodes |-> IF d \in SeqSet(b) THEN callers[d] \cup {k} ELSE callers[d]]
+     /\ deps' = IF IsRoot(a) THEN deps ELSE [deps EXCEPT ![k] = @ \cup SeqSet(b)]
+     /\ callers' = IF IsRoot(a) THEN callers
+                   ELSE [d \in Nodes |-> IF d \in SeqSet(b) THEN callers[d] \cup {k} ELSE callers[d]]
      /\ acts' = [acts EXCEPT ![i] = [a EXCEPT !.pc = "start", !.nx = Len(b), !.nw = FALSE, !.outst = 0,
                                                !.got = [j \in 1..Len(b) |-> NoRes]]]
   /\ UNCHANGED <<cfg, exp, step, res, out, val, fat, rrun, sema, readers, writer, counter, ver, runs, ev,
                  execCnt, execIn, flags>>
 
-Start(i) ==               \* dep.start(...) for the next query of the batch (backwards)
+Start(i, hit) ==          \* dep.start(...) for the next query of the batch (backwards)
   /\ acts[i].pc = "start" /\ acts[i].nx >= 1
   /\ LET a == acts[i] n == a.nx d == BatchOf(a)[n] IN
-     IF res[d] = "done" THEN      \* cache hit
-       /\ acts' = [acts EXCEPT ![i] = [a EXCEPT !.got[n] = ResOf(d, a.run), !.nx = n - 1,
-                                                 !.pc = IF n = 1 THEN "post" ELSE "start"]]
-       /\ SawFlag(a.run, d, rrun[d] = Gen(a.run))
-     ELSE
-       /\ LET c == Append(Append(i, a.bi), n)
-              child == NewAct(d, a.run, i, a.key, a.bi, n, n # 1, "load")
-              a2 == IF n = 1 THEN [a EXCEPT !.pc = "insync", !.nx = 0]
-                    ELSE [a EXCEPT !.nx = n - 1, !.nw = TRUE, !.outst = a.outst + 1]
-          IN acts' = [j \in DOMAIN acts \cup {c} |-> IF j = c THEN child ELSE IF j = i THEN a2 ELSE acts[j]]
-       /\ UNCHANGED flags
+     /\ hit = (res[d] = "done")
+     /\ IF hit
+        THEN /\ acts' = [acts EXCEPT ![i] = [a EXCEPT !.got[n] = ResOf(d, a.run), !.nx = n - 1,
+                                                       !.pc = IF n = 1 THEN "post" ELSE "start"]]
+             /\ SawFlag(a.run, d, rrun[d] = Gen(a.run))
+        ELSE /\ LET c == Append(Append(i, a.bi), n)
+                    child == NewAct(d, a.run, i, a.key, a.bi, n, n # 1, "load")
+                    a2 == IF n = 1 THEN [a EXCEPT !.pc = "insync", !.nx = 0]
+                          ELSE [a EXCEPT !.nx = n - 1, !.nw = TRUE, !.outst = a.outst + 1]
+                IN acts' = [j \in DOMAIN acts \cup {c} |-> IF j = c THEN child ELSE IF j = i THEN a2 ELSE acts[j]]
+             /\ UNCHANGED flags
   /\ UNCHANGED <<cfg, exp, step, tasks, res, out, val, fat, rrun, deps, callers, sema, readers, writer,
                  counter, ver, runs, ev, execCnt, execIn>>
 
-Post(i) ==                \* after the loop: nothing asynchronous -> return; else caller.release()
+SeesCancel(rid, c) == (c => Canc(rid)) /\ (~c => (Stale \/ ~Canc(rid)))
+
+Post(i, c) ==             \* after the loop: nothing asynchronous -> return (c = Cause # nil); else caller.release()
   /\ acts[i].pc = "post"
   /\ LET a == acts[i] IN
      IF ~a.nw THEN
-       /\ acts' = [acts EXCEPT ![i] = BatchDone(a, Canc(a.run))]
+       /\ SeesCancel(a.run, c)
+       /\ acts' = [acts EXCEPT ![i] = BatchDone(a, c)]
        /\ UNCHANGED sema
      ELSE
+       /\ c = FALSE
        /\ sema' = IF a.hold THEN sema + 1 ELSE sema
        /\ acts' = [acts EXCEPT ![i] = [a EXCEPT !.pc = "join", !.hold = FALSE]]
   /\ UNCHANGED <<cfg, exp, step, tasks, res, out, val, fat, rrun, deps, callers, readers, writer, counter,
@@ -290,9 +298,10 @@ Reacquire(i, ok) ==       \* caller.acquire() at the end of Resolve
   /\ UNCHANGED <<cfg, exp, step, tasks, res, out, val, fat, rrun, deps, callers, readers, writer, counter,
                  ver, runs, ev, execCnt, execIn, flags>>
 
-ReadCause(i) ==           \* return results, context.Cause(caller.ctx)
+ReadCause(i, c) ==        \* return results, context.Cause(caller.ctx)
   /\ acts[i].pc = "cause"
-  /\ acts' = [acts EXCEPT ![i] = BatchDone(acts[i], Canc(acts[i].run))]
+  /\ SeesCancel(acts[i].run, c)
+  /\ acts' = [acts EXCEPT ![i] = BatchDone(acts[i], c)]
   /\ UNCHANGED <<cfg, exp, step, tasks, res, out, val, fat, rrun, deps, callers, sema, readers, writer,
                  counter, ver, runs, ev, execCnt, execIn, flags>>
 
@@ -339,14 +348,20 @@ LeaderAcquire(i, ok) ==   \* asynchronous leader: callee.acquire()
                 /\ execCnt' = [execCnt EXCEPT ![k] = @ + 1]
                 /\ UNCHANGED <<res, out>>
      ELSE /\ Canc(a.run)
-          /\ acts' = Deliver(acts, i, ZeroRes)
-          \* as found: returns nil and leaves the pending result behind.  F1: reset it.
-          /\ IF "F1" \in Fix /\ out[k] = i
-             THEN res' = [res EXCEPT ![k] = "nil"] /\ out' = [out EXCEPT ![k] = NoId]
-             ELSE UNCHANGED <<res, out>>
-          /\ UNCHANGED <<sema, execCnt>>
+          \* as found: returns nil and leaves the pending result behind.  F1: reset it first.
+          /\ acts' = IF "F1" \in Fix THEN [acts EXCEPT ![i].pc = "lreset"] ELSE Deliver(acts, i, ZeroRes)
+          /\ UNCHANGED <<res, out, sema, execCnt>>
   /\ UNCHANGED <<cfg, exp, step, tasks, val, fat, rrun, deps, callers, readers, writer, counter, ver, runs,
                  ev, execIn, flags>>
+
+LeaderReset(i) ==         \* F1: t.result.CompareAndSwap(output, nil); return nil
+  /\ acts[i].pc = "lreset"
+  /\ LET k == acts[i].key IN
+     IF out[k] = i THEN res' = [res EXCEPT ![k] = "nil"] /\ out' = [out EXCEPT ![k] = NoId]
+     ELSE UNCHANGED <<res, out>>
+  /\ acts' = Deliver(acts, i, ZeroRes)
+  /\ UNCHANGED <<cfg, exp, step, tasks, val, fat, rrun, deps, callers, sema, readers, writer, counter, ver,
+                 runs, ev, execCnt, execIn, flags>>
 
 (* Execute returned (or panicked).  Deferred release / transfer-back run first. *)
 End(i) ==
@@ -366,11 +381,13 @@ End(i) ==
   /\ UNCHANGED <<cfg, exp, step, tasks, res, out, val, fat, rrun, deps, callers, readers, writer, counter,
                  ver, runs, ev, execCnt, execIn, flags>>
 
-Close(i) ==               \* close(output.done) and hand the result to the caller
+Close(i, drop) ==         \* close(output.done) and hand the result to the caller
   /\ acts[i].pc = "close"
-  /\ LET a == acts[i] k == a.key
-         drop == "F2" \in Fix /\ Canc(a.run)      \* F2: a cancelled run memoises nothing
-     IN IF drop THEN
+  /\ LET a == acts[i] k == a.key IN
+     \* F2: a cancelled run memoises nothing
+     /\ drop => "F2" \in Fix /\ Canc(a.run)
+     /\ ~drop => ("F2" \notin Fix \/ Stale \/ ~Canc(a.run))
+     /\ IF drop THEN
           /\ IF out[k] = i THEN res' = [res EXCEPT ![k] = "nil"] /\ out' = [out EXCEPT ![k] = NoId]
              ELSE UNCHANGED <<res, out>>
           /\ acts' = Deliver(acts, i, ZeroRes)
@@ -409,10 +426,15 @@ CheckCycle(i, path) ==    \* BFS over deps as they are now; path = <<>> means no
          live == res[k] = "done" /\ out[k] = a.o IN
      IF ck # ROOT /\ DepPaths(k, ck) # {} THEN
        /\ path \in DepPaths(k, ck)
-       /\ LET cp == CyclePath(path, k) IN
-          /\ acts' = Deliver(acts, i, [v |-> IF live THEN val[k] ELSE 0, f |-> CycleF(cp),
-                                       ch |-> live /\ rrun[k] = Gen(a.run)])
-          \* output.Fatal = err is a write to the shared result object
+       /\ LET cp == CyclePath(path, k)
+              \* output.Fatal = err is a write to the SHARED result object: it replaces the Fatal of a
+              \* memoised result, and that of a leader whose Execute has returned but which has not closed yet
+              ldr == a.o
+              late == out[k] = ldr /\ res[k] = "pending" /\ ldr \in DOMAIN acts /\ acts[ldr].pc = "close"
+              A1 == IF late THEN [acts EXCEPT ![ldr].rf = CycleF(cp)] ELSE acts
+          IN
+          /\ acts' = Deliver(A1, i, [v |-> IF live THEN val[k] ELSE IF late THEN acts[ldr].rv ELSE 0, f |-> CycleF(cp),
+                                     ch |-> (live /\ rrun[k] = Gen(a.run)) \/ (late /\ acts[ldr].run = a.run)])
           /\ fat' = IF live THEN [fat EXCEPT ![k] = CycleF(cp)] ELSE fat
        /\ UNCHANGED sema
      ELSE
@@ -465,13 +487,22 @@ RunExit1(i) ==            \* deferred root.release()
   /\ acts[i].pc = "rexit"
   /\ sema' = IF acts[i].hold THEN sema + 1 ELSE sema
   /\ acts' = [acts EXCEPT ![i].pc = "rexit2", ![i].hold = FALSE]
+  /\ runs' = [runs EXCEPT ![acts[i].run].err = acts[i].cerr]
   /\ UNCHANGED <<cfg, exp, step, tasks, res, out, val, fat, rrun, deps, callers, readers, writer, counter,
-                 ver, runs, ev, execCnt, execIn, flags>>
+                 ver, ev, execCnt, execIn, flags>>
 
-RunExit2(i) ==            \* deferred cancel(nil); dirty.RUnlock()
+RunExit2(i) ==            \* deferred cancel(nil)
   /\ acts[i].pc = "rexit2"
+  /\ runs' = [runs EXCEPT ![acts[i].run].canc = TRUE]
+  /\ acts' = [acts EXCEPT ![i].pc = "rexit3"]
+  /\ UNCHANGED <<cfg, exp, step, tasks, res, out, val, fat, rrun, deps, callers, sema, readers, writer, counter,
+                 ver, ev, execCnt, execIn, flags>>
+
+RunExit3(i) ==            \* F5: wait for the goroutines of this run; then dirty.RUnlock() and return
+  /\ acts[i].pc = "rexit3"
+  /\ "F5" \in Fix => \A j \in DOMAIN acts : acts[j].run = acts[i].run => j = i
   /\ readers' = readers - 1
-  /\ runs' = [runs EXCEPT ![acts[i].run].canc = TRUE, ![acts[i].run].state = "done"]
+  /\ runs' = [runs EXCEPT ![acts[i].run].state = "done"]
   /\ acts' = DelAct(i)
   /\ UNCHANGED <<cfg, exp, step, tasks, res, out, val, fat, rrun, deps, callers, sema, writer, counter, ver,
                  ev, execCnt, execIn, flags>>
@@ -506,10 +537,11 @@ AllDone == step = Len(cfg.plan) /\ RunsDone /\ ev.pc = "idle" /\ DOMAIN acts = {
 Finished == AllDone /\ UNCHANGED vars       \* so that TLC's deadlock check flags every stuck state
 
 ActNext(i) ==
-  \/ RunEnter(i) \/ RootAcquire(i) \/ StoreEdges(i) \/ Start(i) \/ Post(i)
-  \/ \E ok \in BOOLEAN : Join(i, ok) \/ Reacquire(i, ok) \/ LeaderAcquire(i, ok) \/ WaitReacquire(i, ok)
-  \/ ReadCause(i) \/ Load(i) \/ Cas(i) \/ Reload(i) \/ End(i) \/ Close(i) \/ PanicReset(i) \/ PanicCancel(i)
-  \/ WaitRelease(i) \/ WaitReload(i) \/ RunExit1(i) \/ RunExit2(i)
+  \/ RunEnter(i, counter + 1) \/ RootAcquire(i) \/ StoreEdges(i)
+  \/ \E ok \in BOOLEAN : \/ Join(i, ok) \/ Reacquire(i, ok) \/ LeaderAcquire(i, ok) \/ WaitReacquire(i, ok)
+                          \/ Start(i, ok) \/ Close(i, ok) \/ Post(i, ok) \/ ReadCause(i, ok)
+  \/ Load(i) \/ Cas(i) \/ Reload(i) \/ End(i) \/ PanicReset(i) \/ PanicCancel(i) \/ LeaderReset(i)
+  \/ WaitRelease(i) \/ WaitReload(i) \/ RunExit1(i) \/ RunExit2(i) \/ RunExit3(i)
   \/ \E why \in {"done", "ctx"} : Wake(i, why)
   \/ (acts[i].pc = "chk" /\
       LET a == acts[i] ck == a.pkey
